@@ -43,6 +43,9 @@ pub enum Side {
     /// transport's first flush fails: nothing is written afterwards, every call fails, the dispatch
     /// ends with the error
     SpawnedClientFlushFault,
+    /// the same, the first thing the transport yields being a read error (a frame that does not
+    /// decode): nothing is written afterwards, every queued call fails, the dispatch ends with the error
+    SpawnedClientReadFault,
     /// the client run the way the examples run it (dispatch a real tokio task, cooperative budget
     /// on, replies arriving over a tokio channel as over a tokio socket): n calls are in flight,
     /// r of them get a reply, m more calls are begun but not yet seen by the dispatch, then - before
@@ -50,6 +53,18 @@ pub enum Side {
     /// dispatch transmits a cancellation for every unanswered call, then closes the write side
     /// once, writes nothing afterwards and completes with Ok (for every r in 0..=2, m in 0..=2)
     SpawnedClientShutdown,
+    /// n calls are in flight (all transmitted); one of them is abandoned and one more call is
+    /// begun before the dispatch runs again: the abandoned call's cancellation is written exactly
+    /// once, nobody else is cancelled, the new request goes out (every n up to 130 and around the
+    /// sizes at which a hash table of n entries is exactly full; victim first / last)
+    ClientAbandonAmongMany,
+    /// a spawned server channel (every handler its own tokio task, cooperative budget on) whose
+    /// peer takes no responses until t = 4 s: n requests with deadlines 10 ms apart from 1 s on, all
+    /// parked except the one with the latest deadline, which answers at once (its response waits in
+    /// the channel's queue), plus a request that is nowhere near its deadline; the clock steps to
+    /// 5 s: every parked handler is dropped, nothing is written for a request after its deadline,
+    /// the far request is answered
+    SpawnedServerExpireQueued,
 }
 
 #[derive(Clone, Copy, Debug, serde::Serialize, serde::Deserialize)]
@@ -68,6 +83,16 @@ pub fn configs_many(side: Side, thorough: bool) -> Vec<BurstCfg> {
     let mut ns: Vec<usize> = vec![1, 2, 3, 4, 5, 7, 8, 9, 15, 16, 17, 18, 31, 32, 33, 34, 40, 63, 64, 65, 100, 127, 128, 129, 130, 255, 256, 257, 300];
     if thorough {
         ns.extend([511, 512, 513, 1000, 1023, 1024, 1025, 2048, 2049]);
+    }
+    if side == Side::ClientAbandonAmongMany {
+        ns = (1..=130).collect();
+        ns.extend([223, 224, 225, 447, 448, 449, 895, 896, 897]);
+        if thorough {
+            ns.extend(131..=460);
+            ns.extend([1791, 1792, 1793, 3583, 3584, 3585]);
+        }
+        ns.sort();
+        ns.dedup();
     }
     if side == Side::SpawnedClientShutdown {
         // where the cooperative budget runs out depends on the exact count: every size up to a
@@ -194,6 +219,72 @@ fn run_client(cfg: &BurstCfg, out: &mut RunOut, text: &mut String) {
         out.violations.push(viol("C11-burst-slot-not-freed", format!("after {} abandoned calls a fresh call is not transmitted (in-flight limit 1)", cfg.n)));
     }
     drop(probe);
+    drop(ch);
+}
+
+fn run_abandon_among_many(cfg: &BurstCfg, victim_last: bool, out: &mut RunOut, text: &mut String) {
+    let n = cfg.n;
+    let log = Log::new();
+    let core = Rc::new(RefCell::new(Core::new(0, Flavour::Always, 1, None, log.clone())));
+    let mut ccfg = client::Config::default();
+    ccfg.max_in_flight_requests = n + 2;
+    ccfg.pending_request_buffer = n + 2;
+    let nc = client::new::<u32, u32, MT>(ccfg, MockTransport::new(core.clone()));
+    let ch = nc.client;
+    let mut dispatch = Box::pin(nc.dispatch);
+    let flag = Flag::new(true);
+    let waker = Waker::from(flag.clone());
+    let mut cx = Context::from_waker(&waker);
+    type CallFut = Pin<Box<dyn Future<Output = Result<u32, client::RpcError>>>>;
+    let mk = |i: usize| -> CallFut {
+        let c = ch.clone();
+        let mut ctx = context::current();
+        ctx.deadline = log.t0 + std::time::Duration::from_secs(60);
+        Box::pin(async move { c.call(ctx, i as u32).await })
+    };
+    let mut calls: Vec<Option<CallFut>> = (0..n).map(|i| Some(mk(i))).collect();
+    for c in calls.iter_mut() {
+        let _ = c.as_mut().unwrap().as_mut().poll(&mut cx);
+    }
+    if drive(&mut dispatch, &mut cx, &flag, n) {
+        out.violations.push(viol("C03-burst-dispatch-ended", "the dispatch ended with handles alive".into()));
+        return;
+    }
+    let ids: Vec<(u64, u32)> = core.borrow().wire.iter().filter_map(|m| if let Msg::Req { id, payload, .. } = m { Some((*id, *payload)) } else { None }).collect();
+    if ids.len() != n {
+        out.violations.push(viol("burst-not-transmitted", format!("{n} calls begun over an always-writable transport with room for all: {} requests were written", ids.len())));
+        return;
+    }
+    let victim = if victim_last { n - 1 } else { 0 };
+    let Some(vid) = ids.iter().find(|(_, p)| *p as usize == victim).map(|(id, _)| *id) else {
+        out.machinery_error = Some("abandon-among-many: the victim's request is not on the wire".into());
+        return;
+    };
+    // before the dispatch runs again: the victim is abandoned, one more call is begun
+    calls[victim] = None;
+    let mut extra = mk(n);
+    let _ = extra.as_mut().poll(&mut cx);
+    out.nontrivial = true;
+    drive(&mut dispatch, &mut cx, &flag, n);
+    let wire = core.borrow().wire.clone();
+    let cancels: Vec<u64> = wire.iter().filter_map(|m| if let Msg::Cancel { id, .. } = m { Some(*id) } else { None }).collect();
+    let tag = format!("{n} calls in flight, the {} one abandoned and one more call begun before the dispatch ran again", if victim_last { "newest" } else { "oldest" });
+    text.push_str(&format!("{tag}: cancels {cancels:?}\n"));
+    let mine = cancels.iter().filter(|c| **c == vid).count();
+    if mine == 0 {
+        out.violations.push(viol("C03-R4-cancel-not-delivered", format!("{tag}: no cancellation for request {vid} reached the wire")));
+    }
+    if mine > 1 {
+        out.violations.push(viol("C03-R2-cancel-twice", format!("{tag}: {mine} cancellations for request {vid}")));
+    }
+    if let Some(other) = cancels.iter().find(|c| **c != vid) {
+        out.violations.push(viol("C03-R1-spurious-cancel", format!("{tag}: a cancellation for request {other}, whose call is alive")));
+    }
+    if !wire.iter().any(|m| matches!(m, Msg::Req { payload, .. } if *payload as usize == n)) {
+        out.violations.push(viol("burst-not-transmitted", format!("{tag}: the new call's request was not written")));
+    }
+    drop(extra);
+    drop(calls);
     drop(ch);
 }
 
@@ -383,6 +474,8 @@ async fn run_many_expire(cfg: &BurstCfg, out: &mut RunOut, text: &mut String) {
 /// yields a response (it keeps the reader's waker, as the contract asks).
 #[derive(Default)]
 struct SendMockInner {
+    /// fail the first read (a frame that does not decode) instead of the first flush
+    fail_read: bool,
     failed: bool,
     writes: usize,
     writes_after_failure: usize,
@@ -394,7 +487,12 @@ struct SendMock(std::sync::Arc<std::sync::Mutex<SendMockInner>>);
 impl Stream for SendMock {
     type Item = Result<Response<u32>, std::io::Error>;
     fn poll_next(self: Pin<&mut Self>, cx: &mut Context<'_>) -> Poll<Option<Self::Item>> {
-        self.0.lock().unwrap().read_waker = Some(cx.waker().clone());
+        let mut g = self.0.lock().unwrap();
+        if g.fail_read && !g.failed {
+            g.failed = true;
+            return Poll::Ready(Some(Err(std::io::Error::new(std::io::ErrorKind::InvalidData, "frame does not decode"))));
+        }
+        g.read_waker = Some(cx.waker().clone());
         Poll::Pending
     }
 }
@@ -414,6 +512,9 @@ impl futures::Sink<ClientMessage<u32>> for SendMock {
     fn poll_flush(self: Pin<&mut Self>, _: &mut Context<'_>) -> Poll<Result<(), Self::Error>> {
         let mut g = self.0.lock().unwrap();
         g.flushes += 1;
+        if g.fail_read {
+            return Poll::Ready(Ok(()));
+        }
         g.failed = true;
         Poll::Ready(Err(std::io::Error::new(std::io::ErrorKind::BrokenPipe, "flush failed")))
     }
@@ -424,6 +525,9 @@ impl futures::Sink<ClientMessage<u32>> for SendMock {
 
 async fn run_spawned_flush_fault(cfg: &BurstCfg, out: &mut RunOut, text: &mut String) {
     let t = SendMock::default();
+    let read_fault = cfg.side == Side::SpawnedClientReadFault;
+    t.0.lock().unwrap().fail_read = read_fault;
+    let what = if read_fault { "the first read yielded a frame that does not decode" } else { "the transport's first flush failed" };
     let mut ccfg = client::Config::default();
     ccfg.pending_request_buffer = 4096;
     ccfg.max_in_flight_requests = 4096;
@@ -454,15 +558,15 @@ async fn run_spawned_flush_fault(cfg: &BurstCfg, out: &mut RunOut, text: &mut St
     if g.writes_after_failure > 0 {
         out.violations.push(viol(
             "C14-ii-send-after-error",
-            format!("{} calls queued before a spawned dispatch first ran, the transport's first flush failed: {} items were written to it afterwards", cfg.n, g.writes_after_failure),
+            format!("{} calls queued before a spawned dispatch first ran, {what}: {} items were written to it afterwards", cfg.n, g.writes_after_failure),
         ));
     }
     drop(g);
     if !dispatch.is_finished() {
-        out.violations.push(viol("burst-dispatch-not-ended", format!("{} calls, first flush failed: the spawned dispatch is still running", cfg.n)));
+        out.violations.push(viol("burst-dispatch-not-ended", format!("{} calls, {what}: the spawned dispatch is still running", cfg.n)));
         dispatch.abort();
     } else if let Ok(Ok(())) = dispatch.await {
-        out.violations.push(viol("burst-dispatch-ended-ok", format!("{} calls, first flush failed: the spawned dispatch ended with Ok", cfg.n)));
+        out.violations.push(viol("burst-dispatch-ended-ok", format!("{} calls, {what}: the spawned dispatch ended with Ok", cfg.n)));
     }
     settle().await;
     let mut pending = 0;
@@ -477,7 +581,7 @@ async fn run_spawned_flush_fault(cfg: &BurstCfg, out: &mut RunOut, text: &mut St
     }
     text.push_str(&format!("calls still pending {pending}, succeeded {succeeded}\n"));
     if pending > 0 {
-        out.violations.push(viol("burst-call-hangs", format!("{} calls, first flush failed, dispatch gone: {pending} calls are still pending", cfg.n)));
+        out.violations.push(viol("burst-call-hangs", format!("{} calls, {what}, dispatch gone: {pending} calls are still pending", cfg.n)));
     }
     if succeeded > 0 {
         out.violations.push(viol("burst-call-succeeded", format!("{succeeded} calls succeeded without a reply")));
@@ -613,6 +717,151 @@ async fn run_spawned_shutdown(cfg: &BurstCfg, r: usize, m: usize, out: &mut RunO
     if !missing.is_empty() {
         out.violations.push(viol("C10-close-before-cancel", format!("{tag}: the write side was closed before the cancellations owed for {} abandoned calls were transmitted (first: id {})", missing.len(), missing[0])));
     }
+}
+
+#[derive(Default)]
+struct PeerIn {
+    queue: std::collections::VecDeque<ClientMessage<u32>>,
+    waker: Option<Waker>,
+}
+/// The server's end of a connection whose peer takes no responses before `ready_at` (tokio's
+/// clock); a task told "not ready" is woken by the timer when that moment comes.
+struct LatePeer {
+    inbound: std::sync::Arc<std::sync::Mutex<PeerIn>>,
+    written: std::sync::Arc<std::sync::Mutex<Vec<(u64, tokio::time::Instant)>>>,
+    ready_at: tokio::time::Instant,
+    until_ready: Pin<Box<tokio::time::Sleep>>,
+    unready_sends: std::sync::Arc<std::sync::atomic::AtomicUsize>,
+}
+impl Stream for LatePeer {
+    type Item = Result<ClientMessage<u32>, std::io::Error>;
+    fn poll_next(self: Pin<&mut Self>, cx: &mut Context<'_>) -> Poll<Option<Self::Item>> {
+        let mut g = self.inbound.lock().unwrap();
+        match g.queue.pop_front() {
+            Some(m) => Poll::Ready(Some(Ok(m))),
+            None => {
+                g.waker = Some(cx.waker().clone());
+                Poll::Pending
+            }
+        }
+    }
+}
+impl futures::Sink<Response<u32>> for LatePeer {
+    type Error = std::io::Error;
+    fn poll_ready(mut self: Pin<&mut Self>, cx: &mut Context<'_>) -> Poll<Result<(), Self::Error>> {
+        if tokio::time::Instant::now() >= self.ready_at {
+            return Poll::Ready(Ok(()));
+        }
+        let _ = self.until_ready.as_mut().poll(cx);
+        Poll::Pending
+    }
+    fn start_send(self: Pin<&mut Self>, r: Response<u32>) -> Result<(), Self::Error> {
+        if tokio::time::Instant::now() < self.ready_at {
+            self.unready_sends.fetch_add(1, std::sync::atomic::Ordering::SeqCst);
+        }
+        self.written.lock().unwrap().push((r.request_id, tokio::time::Instant::now()));
+        Ok(())
+    }
+    fn poll_flush(self: Pin<&mut Self>, _: &mut Context<'_>) -> Poll<Result<(), Self::Error>> {
+        Poll::Ready(Ok(()))
+    }
+    fn poll_close(self: Pin<&mut Self>, _: &mut Context<'_>) -> Poll<Result<(), Self::Error>> {
+        Poll::Ready(Ok(()))
+    }
+}
+
+async fn run_spawned_expire_queued(cfg: &BurstCfg, out: &mut RunOut, text: &mut String) {
+    use futures::StreamExt;
+    use std::sync::atomic::{AtomicUsize, Ordering};
+    use std::sync::{Arc, Mutex};
+    use std::time::Duration;
+    struct Guard(Arc<AtomicUsize>);
+    impl Drop for Guard {
+        fn drop(&mut self) {
+            self.0.fetch_add(1, Ordering::SeqCst);
+        }
+    }
+    let n = cfg.n;
+    const CONTROL: u64 = 5_000_000;
+    let inbound = Arc::new(Mutex::new(PeerIn::default()));
+    let written = Arc::new(Mutex::new(Vec::new()));
+    let unready = Arc::new(AtomicUsize::new(0));
+    let started = Arc::new(AtomicUsize::new(0));
+    let dropped = Arc::new(AtomicUsize::new(0));
+    let t0 = tokio::time::Instant::now();
+    let ready_at = t0 + Duration::from_secs(4);
+    let transport = LatePeer { inbound: inbound.clone(), written: written.clone(), ready_at, until_ready: Box::pin(tokio::time::sleep_until(ready_at)), unready_sends: unready.clone() };
+    let fast = (n - 1) as u32;
+    let (st2, dr2) = (started.clone(), dropped.clone());
+    let serve = tarpc::server::serve(move |_, x: u32| {
+        let (st, dr) = (st2.clone(), dr2.clone());
+        async move {
+            st.fetch_add(1, Ordering::SeqCst);
+            if x != fast && (x as u64) != CONTROL {
+                let _g = Guard(dr);
+                futures::future::pending::<()>().await;
+            }
+            Ok(x)
+        }
+    });
+    let server = tokio::spawn(BaseChannel::with_defaults(transport).execute(serve).for_each(|h| async move {
+        tokio::spawn(h);
+    }));
+    let base = t0.into_std();
+    // (10 ms apart; 1 ms apart for the large sizes, so that every deadline lies before 4 s)
+    let spacing = if n <= 290 { 10u64 } else { 1 };
+    let deadline = |i: usize| base + Duration::from_secs(1) + Duration::from_millis(spacing * i as u64);
+    {
+        let mut g = inbound.lock().unwrap();
+        for i in 0..n {
+            let mut ctx = context::current();
+            ctx.deadline = deadline(i);
+            g.queue.push_back(ClientMessage::Request(Request { context: ctx, id: i as u64, message: i as u32 }));
+        }
+        let mut ctx = context::current();
+        ctx.deadline = base + Duration::from_secs(3600);
+        g.queue.push_back(ClientMessage::Request(Request { context: ctx, id: CONTROL, message: CONTROL as u32 }));
+        if let Some(w) = g.waker.take() {
+            w.wake();
+        }
+    }
+    let settle = || async {
+        for _ in 0..(4 * n + 64) {
+            tokio::task::yield_now().await;
+        }
+    };
+    settle().await;
+    let st = started.load(Ordering::SeqCst);
+    if st != n + 1 {
+        out.violations.push(viol("burst-not-served", format!("{} requests sent to a spawned server, {st} handlers were started before any deadline", n + 1)));
+        server.abort();
+        return;
+    }
+    if dropped.load(Ordering::SeqCst) != 0 {
+        out.violations.push(viol("burst-early-abort", format!("{} handlers were dropped before any deadline had passed", dropped.load(Ordering::SeqCst))));
+    }
+    tokio::time::advance(Duration::from_secs(5)).await;
+    settle().await;
+    tokio::time::advance(Duration::from_millis(10)).await;
+    settle().await;
+    out.nontrivial = n > 1;
+    let dr = dropped.load(Ordering::SeqCst);
+    let w = written.lock().unwrap().clone();
+    text.push_str(&format!("parked handlers dropped: {dr} of {}; written: {} responses\n", n - 1, w.len()));
+    if dr != n - 1 {
+        out.violations.push(viol("burst-not-expired", format!("{} parked handlers of a spawned server were running when their deadlines passed; {} of them are still alive 2.4 s after the last deadline", n - 1, n - 1 - dr)));
+    }
+    if unready.load(Ordering::SeqCst) > 0 {
+        out.violations.push(viol("C14-i-send-without-ready", format!("{} responses written while the transport was not ready", unready.load(Ordering::SeqCst))));
+    }
+    if !w.iter().any(|(id, _)| *id == CONTROL) {
+        out.violations.push(viol("burst-connection-stalled", format!("{n} requests expired on a spawned server; the request that is nowhere near its deadline is not answered once the peer reads again")));
+    }
+    let late: Vec<u64> = w.iter().filter(|(id, t)| *id != CONTROL && t.into_std() > deadline(*id as usize)).map(|(id, _)| *id).collect();
+    if !late.is_empty() {
+        out.violations.push(viol("C06-response-after-deadline", format!("spawned server, {n} requests with deadlines 10 ms apart, the peer not reading until 4 s: responses for requests {:?} were transmitted after their deadlines", &late[..late.len().min(5)])));
+    }
+    server.abort();
 }
 
 async fn run_spawned_expire(cfg: &BurstCfg, out: &mut RunOut, text: &mut String) {
@@ -807,7 +1056,14 @@ pub fn run_cfg(cfg: &BurstCfg, render: bool) -> RunOut {
                 Side::ClientManyCalls => run_many_calls(cfg, &mut out, &mut text).await,
                 Side::ServerManyExpire => run_many_expire(cfg, &mut out, &mut text).await,
                 Side::SpawnedServerExpire => run_spawned_expire(cfg, &mut out, &mut text).await,
-                Side::SpawnedClientFlushFault => run_spawned_flush_fault(cfg, &mut out, &mut text).await,
+                Side::SpawnedClientFlushFault | Side::SpawnedClientReadFault => run_spawned_flush_fault(cfg, &mut out, &mut text).await,
+                Side::SpawnedServerExpireQueued => run_spawned_expire_queued(cfg, &mut out, &mut text).await,
+                Side::ClientAbandonAmongMany => {
+                    for victim_last in [false, true] {
+                        run_abandon_among_many(cfg, victim_last, &mut out, &mut text);
+                        out.extra_execs += 1;
+                    }
+                }
                 Side::SpawnedClientShutdown => {
                     for r in 0..=cfg.n.min(2) {
                         for m in 0..=2usize {
